@@ -120,7 +120,7 @@ static int fd_snapshot(int *out, int max)
 }
 
 /* ------------------------------------------------------------------ steps */
-static char scratch[256], ini_path[300], junk_path[300], nm[64];
+static char scratch[256], ini_path[300], junk_path[300], nm[64], pre_ini_path[300];
 static pint cmp_int(pconstpointer a, pconstpointer b) { return P_POINTER_TO_INT(a) - P_POINTER_TO_INT(b); }
 static ppointer thr_body(ppointer a) { return a; }
 static ppointer thr_body_tls(ppointer a) { PUThread *me = p_uthread_current(); (void)me; return a; }
@@ -128,7 +128,8 @@ static void *foreign_thread(void *a) { PUThread *me = p_uthread_current(); (void
 
 static void st_tree(void) { int t; for (t = 0; t < 3; t++) { PTree *tr = p_tree_new((PTreeType)t, cmp_int); int i; for (i = 0; i < 6; i++) p_tree_insert(tr, P_INT_TO_POINTER(i * 7 % 5 + 1), NULL); p_tree_remove(tr, P_INT_TO_POINTER(3)); p_tree_free(tr); } }
 static void st_hash(void) { PHashTable *h = p_hash_table_new(); PList *l; p_hash_table_insert(h, P_INT_TO_POINTER(1), NULL); p_hash_table_insert(h, P_INT_TO_POINTER(102), NULL); p_hash_table_insert(h, P_INT_TO_POINTER(203), NULL); p_hash_table_insert(h, P_INT_TO_POINTER(304), NULL); p_hash_table_insert(h, P_INT_TO_POINTER(7), NULL); l = p_hash_table_keys(h); p_list_free(l); l = p_hash_table_values(h); p_list_free(l); p_hash_table_remove(h, P_INT_TO_POINTER(1)); p_hash_table_free(h);      /* freed with a chain of three nodes in one bucket */ l = p_list_append(NULL, NULL); l = p_list_prepend(l, NULL); l = p_list_reverse(l); p_list_free(l); }
-static void st_ini(void) { PIniFile *f = p_ini_file_new(ini_path); PList *l, *c; if (p_ini_file_parse(f, NULL)) { p_ini_file_parse(f, NULL); l = p_ini_file_sections(f); for (c = l; c; c = c->next) p_free(c->data); p_list_free(l); l = p_ini_file_parameter_list(f, "lists", "l"); for (c = l; c; c = c->next) p_free(c->data); p_list_free(l); } p_ini_file_free(f); f = p_ini_file_new("/nonexistent/file.ini"); p_ini_file_parse(f, NULL); p_ini_file_free(f); }
+static void st_ini(void) { PIniFile *f = p_ini_file_new(ini_path); PList *l, *c; if (p_ini_file_parse(f, NULL)) { p_ini_file_parse(f, NULL); l = p_ini_file_sections(f); for (c = l; c; c = c->next) p_free(c->data); p_list_free(l); l = p_ini_file_parameter_list(f, "lists", "l"); for (c = l; c; c = c->next) p_free(c->data); p_list_free(l); } p_ini_file_free(f); f = p_ini_file_new("/nonexistent/file.ini"); p_ini_file_parse(f, NULL); p_ini_file_free(f);
+    f = p_ini_file_new(pre_ini_path); if (p_ini_file_parse(f, NULL)) { pchar *v = p_ini_file_parameter_string(f, "s", "k", NULL); p_free(v); } p_ini_file_free(f); }      /* key lines before the first section, an empty section, a repeated key */
 static void st_crypto(void) { int t; for (t = (int)P_CRYPTO_HASH_TYPE_MD5; t <= (int)P_CRYPTO_HASH_TYPE_GOST; t++) { PCryptoHash *h = p_crypto_hash_new((PCryptoHashType)t); pchar *s; p_crypto_hash_update(h, (const puchar *)"x", 1); s = p_crypto_hash_get_string(h); p_free(s); p_crypto_hash_free(h); } }
 static void st_error(void) { PError *e = p_error_new_literal(1, 2, "m"), *c = p_error_copy(e), *n = NULL; p_error_set_error_p(&n, 1, 2, "x"); p_error_clear(e); p_error_free(e); p_error_free(c); p_error_free(n); }
 static void st_dir(void) { PDir *d = p_dir_new(scratch, NULL); PDirEntry *e; while ((e = p_dir_get_next_entry(d, NULL)) != NULL) p_dir_entry_free(e); p_dir_rewind(d, NULL); p_dir_free(d); }
@@ -262,6 +263,8 @@ int main(int argc, char **argv)
     if (argc < 2) return 2;
     verif_private_netns(); hout_open();
     snprintf(scratch, sizeof scratch, "%s", getenv("VERIF_SCRATCH_DIR") ? getenv("VERIF_SCRATCH_DIR") : "/tmp");
+    snprintf(pre_ini_path, sizeof pre_ini_path, "%s/pre_%d.ini", scratch, (int)getpid());
+    { FILE *pf = fopen(pre_ini_path, "w"); if (pf) { fputs("a = 1\nb = \"two\"\n; c\n[empty]\n[s]\nk = v\nk = w\nlist = {1 2}\n", pf); fclose(pf); } }
     snprintf(ini_path, sizeof ini_path, "%s/c18.ini", scratch); snprintf(junk_path, sizeof junk_path, "%s/file_a", scratch);
     snprintf(nm, sizeof nm, "vf20_%d", (int)getpid());
     signal(SIGPIPE, SIG_IGN);
@@ -303,6 +306,7 @@ int main(int argc, char **argv)
             }
         }
     } else return 2;
+    unlink(pre_ini_path);
     hout_stat("evaluations", n_eval); hout_stat("nontrivial", n_nontriv); hout_stat("steps", NST);
     hout_sample("program [tcp-refused, shm-different-sizes, thread-detached]: after it, fds, allocations, shared mappings, IPC names, pthread objects and dlopen handles must equal the state before");
     for (i = 0; i < nsigs; i++) hout_note("signature %s occurred %ld time(s)", sigs[i].sig, sigs[i].n);
